@@ -106,6 +106,7 @@ class PathCtx:
         self.covers = set()
         self.notes = []  # axioms / inlined helpers / opaque calls used on this path
         self.n_pc = 0
+        self.n_real = 0  # decisions proper (speculative entries of the trace not counted)
         self.no_fork = False
         self.interp = None
         self.tainted = False  # a refuted/undecided obligation was assumed: pc may be unsat
@@ -153,18 +154,33 @@ class PathCtx:
         if z3.is_false(cond):
             return False
         if self.no_fork:
-            # speculative evaluation: never consumes or records decisions; a condition the
-            # path condition does not determine ends the speculation
+            # speculative evaluation: a condition the path condition does not determine ends
+            # the speculation.  What the solver said is RECORDED (tagged entries) and replayed
+            # verbatim: a solver that answers `unknown` in one execution of a path and `unsat`
+            # in another must not change which decisions a re-execution meets.
+            pos = len(self.trace)
+            if pos < len(self.prefix):
+                rec = self.prefix[pos]
+                if not (isinstance(rec, (tuple, list)) and len(rec) == 2 and rec[0] == "s"):
+                    raise VCError("engine inconsistency: re-execution is misaligned with its decision prefix (speculative entry expected at %d)" % pos)
+                self.trace.append(("s", rec[1]))
+                if rec[1] == "W":
+                    raise WouldFork()
+                return bool(rec[1])
             can_t = self.solver.check(cond) != z3.unsat
             can_f = self.solver.check(z3.Not(cond)) != z3.unsat
             if can_t and can_f:
+                self.trace.append(("s", "W"))
                 raise WouldFork()
             if not can_t and not can_f:
                 raise PathAbort()
+            self.trace.append(("s", can_t))
             return can_t
         pos = len(self.trace)
         if pos < len(self.prefix):
             choice = self.prefix[pos]
+            if not isinstance(choice, bool):
+                raise VCError("engine inconsistency: re-execution is misaligned with its decision prefix (decision expected at %d)" % pos)
         else:
             can_t = self.solver.check(cond) != z3.unsat
             can_f = self.solver.check(z3.Not(cond)) != z3.unsat
@@ -188,6 +204,7 @@ class PathCtx:
                     raise VCError("engine inconsistency: path condition unsatisfiable at a branch (trace %r)" % (self.trace,))
                 raise PathAbort()
         self.trace.append(choice)
+        self.n_real += 1
         self.solver.add(cond if choice else z3.Not(cond))
         self.n_pc += 1
         return choice
@@ -206,10 +223,13 @@ class PathCtx:
             pos = len(self.trace)
             if pos < len(self.prefix):
                 take = self.prefix[pos]
+                if not isinstance(take, bool):
+                    raise VCError("engine inconsistency: re-execution is misaligned with its decision prefix (choice expected at %d)" % pos)
             else:
                 self.engine.push_work(self.trace + [False])
                 take = True
             self.trace.append(take)
+            self.n_real += 1
             if take:
                 return k
         return n - 1
